@@ -18,6 +18,7 @@ Rule ==
     [] Ev.op = "wire" -> /\ Ev.res = "Ok"
                          /\ Ev.gcls # "nan"                                  \* NaN is in no documented law, whatever the reference does
                          /\ (Ev.wa = Ev.wb) => (IF Ev.finite THEN Within(Ev.got, Ev.ref, WireTol(Ev.fam)) ELSE Ev.same_class)
+    [] Ev.op = "msh" -> Ev.res = "Ok" /\ (Ev.finite => MshOK(Ev))
     [] Ev.op = "tri" -> Ev.res = "Ok" /\ Ev.words = 1 /\ TriOK(Ev.mn, Ev.mx, Ev.md, Ev.fn, Ev.xq, Ev.yq)
     [] Ev.op = "zs" -> ZScoreOK(Ev.m, Ev.s, Ev.z, Ev.r256)
     [] Ev.op = "id" -> Ev.res = "Ok" /\ Ev.wa = Ev.wb /\ (Ev.finite => Within(Ev.got, Ev.ref, 1))      \* LogNormal = exp(Normal)
